@@ -248,8 +248,9 @@ Definition sustain_conforms (s : cand) : res bool :=
                        (range_step (length row) su))
           (seq 0 (length (fl_design fb))).
 
-(** [factor_preamble_size]: a second crossing containing the factor raises,
-    whatever its size *)
+(** [factor_preamble_size] (as of /repo 7075cb8): the preamble size of the first
+    crossing containing the factor; a later crossing containing it with a
+    different size raises *)
 Definition crossing_preamble (i : nat) : nat :=
   match fl_alignment fb with
   | PostPreamble => post_preamble_size fb
@@ -261,8 +262,9 @@ Definition factor_preamble (f : nat) : res nat :=
                      (combine (seq 0 (length (fl_crossings fb))) (fl_crossings fb)) in
   match hits with
   | [] => Ok 0
-  | [p] => Ok (crossing_preamble (fst p))
-  | _ => Err EValue
+  | p :: rest =>
+    if forallb (fun q => crossing_preamble (fst q) =? crossing_preamble (fst p)) rest
+    then Ok (crossing_preamble (fst p)) else Err EValue
   end.
 
 (** the trials a [while i < T: ...; i += step] loop visits, starting at [first] *)
